@@ -363,6 +363,50 @@ func (b *bmWrap) Finalize(bc module.BlockCandidate) error {
 type smWrap struct {
 	*test.ServiceManager
 	inc *Inc
+
+	mu      sync.Mutex
+	pending [][]byte // ids of finalized normal transactions whose locators may not be flushed yet
+}
+
+// Finalize and ProposeTransition keep the fixture's transaction pool honest: the fixture drops
+// pooled transactions by looking them up in the locator bucket, which common/txlocator fills
+// asynchronously after Finalize. Before the next proposal is built the ids finalized so far must
+// be there, otherwise the same transaction can be proposed (and committed) twice on a loaded
+// machine, which no real pool would do. Fixture synchronisation only.
+func (s *smWrap) Finalize(tr module.Transition, opt int) error {
+	err := s.ServiceManager.Finalize(tr, opt)
+	if err == nil && opt&module.FinalizeNormalTransaction != 0 {
+		if l := tr.NormalTransactions(); l != nil {
+			s.mu.Lock()
+			for it := l.Iterator(); it.Has(); _ = it.Next() {
+				if tx, _, e := it.Get(); e == nil {
+					s.pending = append(s.pending, tx.ID())
+				}
+			}
+			s.mu.Unlock()
+		}
+	}
+	return err
+}
+
+func (s *smWrap) ProposeTransition(parent module.Transition, bi module.BlockInfo, csi module.ConsensusInfo) (module.Transition, error) {
+	s.mu.Lock()
+	ids := s.pending
+	s.pending = nil
+	s.mu.Unlock()
+	if len(ids) > 0 {
+		if bk, err := s.inc.c.DBs[s.inc.Idx].GetBucket(db.TransactionLocatorByHash); err == nil {
+			for _, id := range ids {
+				for i := 0; i < 5000; i++ {
+					if bs, err := bk.Get(id); err == nil && bs != nil {
+						break
+					}
+					time.Sleep(time.Millisecond)
+				}
+			}
+		}
+	}
+	return s.ServiceManager.ProposeTransition(parent, bi, csi)
 }
 
 func (s *smWrap) SendDoubleSignReport(result []byte, vh []byte, data []module.DoubleSignData) error {
